@@ -160,6 +160,10 @@ def _tree(case):
             rec(o2, r2, h2)
 
     rec(obj, ref, [])
+    # instances must not share state: a fresh condition built after all of the above behaves like the first one did
+    fresh = cls(patience=case["patience"], min_delta=case["delta"], verbose=case["verbose"])
+    if fresh.best_model is not None or int(fresh.epochs_since_best) != 0 or not np.isinf(float(getattr(fresh, attr))):
+        v.append(viol(f"C19/{case['cond']}/shared-state", "a newly constructed stop condition is not in its initial state (state shared between instances)", case=case))
     return {
         "violations": v,
         "nt": counters["stopped"] > 0 and counters["open"] > 0,
